@@ -445,7 +445,6 @@ func c09Arith(rc *simrt.RunCtx) {
 	rc.Fault(fmt.Sprintf("enumerated-s=%d", s))
 }
 
-
 // c09Wakeup: a Send that was blocked on a full window returns as soon as an
 // acknowledgement has freed a slot - not at the next timer tick.
 func c09Wakeup(rc *simrt.RunCtx) {
